@@ -437,6 +437,7 @@ type retRec struct {
 type Frame struct {
 	// ownerVal: the struct a field function value was loaded from (bound as "owner" in its contract)
 	ownerVal *Val
+	selfVal  *Val
 	ex      *Exec
 	fn      *ssa.Function
 	vals    map[ssa.Value]Val
